@@ -26,11 +26,23 @@ def one(args):
     d=os.path.join(HERE,"seeds",name)
     os.makedirs(d,exist_ok=True)
     patch=subprocess.run(["git","-C","/repo","diff",h,h+"^"],capture_output=True,text=True).stdout
-    open(os.path.join(d,"patch.diff"),"w").write(patch)
+    pfile=os.path.join(d,"patch.diff")
+    previous=open(pfile).read() if os.path.exists(pfile) else None
+    prevmeta=json.load(open(os.path.join(d,"meta.json"))) if os.path.exists(os.path.join(d,"meta.json")) else {}
     wt="/tmp/revwt-%s"%h
     subprocess.run(["git","-C","/repo","worktree","add","-q","--detach",wt,HEAD],check=True)
+    rebased=""
     try:
-        r=subprocess.run(["git","apply",os.path.join(d,"patch.diff")],cwd=wt,capture_output=True,text=True)
+        open(pfile,"w").write(patch)
+        r=subprocess.run(["git","apply",pfile],cwd=wt,capture_output=True,text=True)
+        if r.returncode!=0 and previous is not None and previous!=patch:
+            # the exact revert no longer applies: the patch kept here was re-made by hand (sub-agent) on a later tree; it is re-measured, never overwritten
+            open(pfile,"w").write(previous)
+            r=subprocess.run(["git","apply",pfile],cwd=wt,capture_output=True,text=True)
+            rebased=prevmeta.get("note","") or "re-made on a later tree (the exact revert no longer applies)"
+            if r.returncode!=0:
+                subprocess.run(["git","-C","/repo","worktree","remove","--force",wt])
+                return "%s STALE: neither the exact revert nor the re-made patch applies on HEAD; left untouched"%name
         if r.returncode!=0:
             expect=[]; note="revert does not apply cleanly on HEAD (later fix touched the same lines)"
         else:
@@ -44,7 +56,7 @@ def one(args):
                 if m2 and hits:
                     e={"property":m2.group(1),"rule":hits[-1][0],"key":hits[-1][1]}
                     if e not in expect: expect.append(e)
-            note=""
+            note=rebased
     finally:
         subprocess.run(["git","-C","/repo","worktree","remove","--force",wt])
     meta={"id":name,"origin":"reverse of /repo commit %s (%s): re-introduces the original defect"%(h,subj),"property":expect[0]["property"] if expect else "","expect":expect,"note":note}
